@@ -64,8 +64,74 @@ func strConverter(dec *Decoder, o interface{}, p interface{}) {
 	case fmt.GoStringer:
 		*(*string)(reflect2.PtrOf(p)) = o.GoString()
 	default:
+		if containsItself(reflect.ValueOf(o), map[visited]struct{}{}) {
+			// fmt.Sprint would recurse until the stack overflows
+			if dec.Error == nil {
+				dec.Error = DecodeError("hprose/io: cannot convert a value that contains itself to string")
+			}
+			return
+		}
 		*(*string)(reflect2.PtrOf(p)) = fmt.Sprint(o)
 	}
+}
+
+type visited struct {
+	ptr uintptr
+	len int
+	typ reflect.Type
+}
+
+// containsItself reports whether v reaches itself through maps, slices, pointers
+// or interfaces, as a decoded back-reference to an enclosing container does.
+func containsItself(v reflect.Value, path map[visited]struct{}) bool {
+	var key visited
+	switch v.Kind() {
+	case reflect.Interface:
+		return !v.IsNil() && containsItself(v.Elem(), path)
+	case reflect.Ptr, reflect.Map:
+		if v.IsNil() {
+			return false
+		}
+		key = visited{v.Pointer(), 0, v.Type()}
+	case reflect.Slice:
+		if v.Len() == 0 {
+			return false
+		}
+		key = visited{v.Pointer(), v.Len(), v.Type()}
+	case reflect.Array, reflect.Struct:
+	default:
+		return false
+	}
+	if key.typ != nil {
+		if _, ok := path[key]; ok {
+			return true
+		}
+		path[key] = struct{}{}
+		defer delete(path, key)
+	}
+	switch v.Kind() {
+	case reflect.Ptr:
+		return containsItself(v.Elem(), path)
+	case reflect.Map:
+		for iter := v.MapRange(); iter.Next(); {
+			if containsItself(iter.Key(), path) || containsItself(iter.Value(), path) {
+				return true
+			}
+		}
+	case reflect.Slice, reflect.Array:
+		for i := 0; i < v.Len(); i++ {
+			if containsItself(v.Index(i), path) {
+				return true
+			}
+		}
+	case reflect.Struct:
+		for i := 0; i < v.NumField(); i++ {
+			if containsItself(v.Field(i), path) {
+				return true
+			}
+		}
+	}
+	return false
 }
 
 func assignTo(dec *Decoder, o interface{}, p interface{}) {
